@@ -42,3 +42,20 @@ Proof.
   - unfold wf_srag. cbn. repeat split; repeat constructor. vm_compute. discriminate.
   - vm_compute. repeat split.
 Qed.
+
+(* the index limit is exact: a subarray whose end index EQUALS the largest value of the index type
+   is accepted, one whose end index is one beyond it is refused (after its values were written:
+   the recovery of C10_failed_append removes them) *)
+Theorem C10_index_limit : forall h tail rows vlen,
+  tails_eqb tail (tl (h_shape (rh_v h))) = true ->
+  let size := Z.of_nat (length rows) in
+  (vlen + size <= index_max (h_nt (rh_i h)) -> snd (rappend_one h (RGood tail rows) vlen) = Some size) /\
+  (vlen + size > index_max (h_nt (rh_i h)) -> snd (rappend_one h (RGood tail rows) vlen) = None).
+Proof.
+  intros h tail rows vlen Ht size. unfold rappend_one. rewrite Ht. fold size.
+  destruct (Z.leb_spec (vlen + size) (index_max (h_nt (rh_i h)))) as [Hle|Hgt]; split; intros H;
+    try reflexivity; exfalso; apply (Z.lt_irrefl (vlen + size)).
+  - apply Z.gt_lt in H. eapply Z.le_lt_trans; eassumption.
+  - eapply Z.le_lt_trans; eassumption.
+Qed.
+Print Assumptions C10_index_limit.
